@@ -297,6 +297,32 @@ fn canon_runs(tokens: &[String], count_l: bool) -> String {
     }
 }
 
+/// Error canonicalisation (BUILDING.md). The coordinator's unit-returning calls fail with two VARIANTS:
+/// `ChainError::StorageError` = the WAL write failed (rule 1: `wal_err`), and `ChainError::TransactionFailed(String)`
+/// = every refusal (too many transactions in `begin`; unknown transaction / wrong phase / non-YES vote in
+/// commit, abort, complete_*, force_resolve). The refusals of the end-of-transaction calls change neither the log
+/// nor the memory and the C13 oracles only use ok / not ok, so they are compared as the ONE token `txfailed`
+/// (rule 2; `collapse_end_refusal` maps the model's `not_found` / `cannot_commit` / `wrong_phase<n>` to it) and
+/// the wording is read only for the coverage statistic `res.<op>.<reason>`.
+const TXFAILED: &str = "txfailed";
+fn vname<T: std::fmt::Debug>(e: &T) -> String {
+    format!("{e:?}").chars().take_while(|c| c.is_alphanumeric() || *c == '_').collect()
+}
+/// (compared token, reason for the statistics)
+fn end_err(e: &tensor_chain::ChainError) -> (String, &'static str) {
+    match e {
+        tensor_chain::ChainError::StorageError(_) => ("wal_err".into(), "wal_err"),
+        tensor_chain::ChainError::TransactionFailed(m) => (
+            TXFAILED.into(),
+            if m.contains("not found") { "not_found" } else if m.contains("cannot be committed") { "cannot_commit" } else if m.contains("phase") { "wrong_phase" } else { "unclassified" },
+        ),
+        other => (format!("err:{}", vname(other)), "other"),
+    }
+}
+fn collapse_end_refusal(res: &str) -> String {
+    if res == "not_found" || res == "cannot_commit" || res.starts_with("wrong_phase") { TXFAILED.to_string() } else { res.to_string() }
+}
+
 fn canon_model_answer(ans: &str, strip_phase_digit: bool) -> String {
     canon_model_answer_c(ans, strip_phase_digit, false)
 }
@@ -308,8 +334,9 @@ fn canon_model_answer_c(ans: &str, strip_phase_digit: bool, count_l: bool) -> St
         return ans.to_string();
     }
     let mut res = parts[0].to_string();
-    if strip_phase_digit && res.starts_with("wrong_phase") {
-        res = "wrong_phase".into();
+    if strip_phase_digit {
+        // an end-of-transaction call (the only callers that pass `true`): refusals are one token
+        res = collapse_end_refusal(&res);
     }
     let toks: Vec<String> = if parts[1] == "-" { vec![] } else { parts[1].split(' ').map(|s| s.to_string()).collect() };
     let digest = parts[2].split(" aborts=").next().unwrap_or("").to_string();
@@ -731,9 +758,15 @@ fn exec(w: &mut World, op: &Op, cx: &mut Ctx) {
                     (format!("begin {} {} {}", w.book.txs.len(), show_list(parts), tx.started_at), "ok".into())
                 }
                 Err(e) => {
-                    let res = if e.to_string().contains("WAL write failed") { "wal_err" } else { "too_many" };
+                    // by variant (rule 1): StorageError = the TxBegin record could not be logged; the only
+                    // TransactionFailed of `begin` is the max_concurrent refusal
+                    let res: String = match &e {
+                        tensor_chain::ChainError::StorageError(_) => "wal_err".into(),
+                        tensor_chain::ChainError::TransactionFailed(_) => "too_many".into(),
+                        other => format!("err:{}", vname(other)),
+                    };
                     cx.rep.hit(&format!("res.{res}"));
-                    (format!("begin {} {} {}", w.book.txs.len() + 1, show_list(parts), now_ms()), res.into())
+                    (format!("begin {} {} {}", w.book.txs.len() + 1, show_list(parts), now_ms()), res)
                 }
             }
         }
@@ -823,24 +856,11 @@ fn exec(w: &mut World, op: &Op, cx: &mut Ctx) {
                 _ => ("cabort", w.c().complete_abort(real)),
             };
             cx.rep.hit(&format!("op.{name}"));
-            let res = match &r {
-                Ok(()) => "ok".to_string(),
-                Err(e) => {
-                    let s = e.to_string();
-                    if s.contains("WAL write failed") {
-                        "wal_err".to_string()
-                    } else if s.contains("not found") {
-                        "not_found".to_string()
-                    } else if s.contains("cannot be committed") {
-                        "cannot_commit".to_string()
-                    } else if s.contains("phase") {
-                        "wrong_phase".to_string()
-                    } else {
-                        format!("err:{s}")
-                    }
-                }
+            let (res, why) = match &r {
+                Ok(()) => ("ok".to_string(), "ok"),
+                Err(e) => end_err(e),
             };
-            cx.rep.hit(&format!("res.{name}.{res}"));
+            cx.rep.hit(&format!("res.{name}.{why}"));
             if name == "commit" || name == "abort" {
                 completion = Some((if name == "commit" { "commit" } else { "abort" }, can, r.is_ok()));
             }
@@ -938,7 +958,7 @@ fn exec(w: &mut World, op: &Op, cx: &mut Ctx) {
             let r = w.c().recover_from_wal();
             let res = match r {
                 Ok(s) => format!("recovered:{}:{}:{}:{}", s.pending_prepare, s.pending_commit, s.pending_abort, s.lock_releases_recovered),
-                Err(e) => format!("err:{e}"),
+                Err(e) => format!("err:{}", vname(&e)),
             };
             if now_ms().saturating_sub(t0) > GUARD_MS / 2 {
                 w.clock_unsure = true;
@@ -1014,7 +1034,7 @@ fn exec(w: &mut World, op: &Op, cx: &mut Ctx) {
             }
             let res = match w.c().truncate_wal() {
                 Ok(()) => "ok".to_string(),
-                Err(e) => format!("err:{e}"),
+                Err(e) => format!("err:{}", vname(&e)),
             };
             ("truncate".to_string(), res)
         }
@@ -1966,21 +1986,10 @@ fn vote_res(r: &Result<Option<TxPhase>, VoteRecordError>) -> String {
     }
 }
 
-fn unit_res<E: std::fmt::Display>(r: &Result<(), E>) -> String {
+fn unit_res(r: &Result<(), tensor_chain::ChainError>) -> String {
     match r {
         Ok(()) => "ok".to_string(),
-        Err(e) => {
-            let s = e.to_string();
-            if s.contains("not found") {
-                "not_found".to_string()
-            } else if s.contains("cannot be committed") {
-                "cannot_commit".to_string()
-            } else if s.contains("phase") {
-                "wrong_phase".to_string()
-            } else {
-                format!("err:{s}")
-            }
-        }
+        Err(e) => end_err(e).0,
     }
 }
 
@@ -2047,8 +2056,9 @@ fn run_handles(cx: &mut Ctx, name: &str, sc: &HScript) {
     fn step(cx: &mut Ctx, stream: &str, trace: &mut Vec<String>, line: &str, impl_res: &str, digest: String, strip_digits: bool) {
         let ans = cx.m.ask(line);
         let mut mres = ans.split(" | ").next().unwrap_or("").to_string();
-        if strip_digits && mres.starts_with("wrong_phase") {
-            mres = "wrong_phase".into();
+        if strip_digits {
+            // an end-of-transaction call: refusals are one token (see `end_err`)
+            mres = collapse_end_refusal(&mres);
         }
         let mstate = model_state(cx.m);
         trace.push(format!("{line} -> {impl_res}"));
@@ -2196,7 +2206,7 @@ fn run_handles(cx: &mut Ctx, name: &str, sc: &HScript) {
         let t1 = now_ms();
         let res = match c2.recover_from_wal() {
             Ok(s) => format!("recovered:{}:{}:{}:{}", s.pending_prepare, s.pending_commit, s.pending_abort, s.lock_releases_recovered),
-            Err(e) => format!("err:{e}"),
+            Err(e) => format!("err:{}", vname(&e)),
         };
         let d = hdigest(&c2, &txs, &keys);
         step(cx, stream, &mut trace, &format!("recover_live {t1}"), &res, d, false);
